@@ -100,8 +100,11 @@ def _cases(shard):
         elif ak in ('list', 'tuple', 'gen') and bk in BT and draw(st.integers(0, 2)) == 0:
             a = multiset(a, b)
         sizes = draw(st.sampled_from([[2, 2], [3, 2], [3, 3], [4, 3], None]))
-        return {'fam': fam, 'impl': impl, 'ktype': ktype, 'sizes': sizes,
+        case = {'fam': fam, 'impl': impl, 'ktype': ktype, 'sizes': sizes,
                 'a': {'kind': ak, 'keys': a}, 'b': {'kind': bk, 'keys': b}}
+        if draw(st.integers(0, 3)) == 0:
+            case['ghost'] = True        # BTrees operands are stored in a mini-ZODB connection and evicted before every call
+        return case
 
     return case()
 
@@ -129,7 +132,10 @@ def enum_cases(spec):
         for b in subsets:
             for ak in BT:
                 for bk in BT:
-                    yield dict(base, a={'kind': ak, 'keys': a}, b={'kind': bk, 'keys': b})
+                    c = dict(base, a={'kind': ak, 'keys': a}, b={'kind': bk, 'keys': b})
+                    if (len(a) + 2 * len(b) + BT.index(ak) + BT.index(bk)) % 3 == 0:
+                        c['ghost'] = True
+                    yield c
     small = [s for s in subsets if U[-1] not in s]
     seqs = [list(t) for n in range(seqlen + 1) for t in itertools.product(U, repeat=n)]
     for a in small:
@@ -192,6 +198,26 @@ def build(fam, impl, spec):
     return c, vals
 
 
+def _evict(objs):
+    """store the operands in one mini-ZODB connection and sweep its cache: the call starts on ghosts.  Returns the
+    connection (to be kept alive), or None when a tree has the shape of open finding F16 (it would not survive the
+    commit, set operation or not)"""
+    from vlib import minizodb as Z
+    from vlib import walker
+    for o in objs:
+        if hasattr(o, '_firstbucket'):
+            if walker.f16_pending(walker.walk(o, hasattr(o, 'items'), check=False)):
+                return None
+    if not objs:
+        return None
+    c = Z.Connection(Z.Storage())
+    for o in objs:
+        c.add(o)
+    c.commit()
+    c.minimize()
+    return c
+
+
 def _listing(x):
     if x is None:
         return None
@@ -242,6 +268,9 @@ def run_case(case, ctx):
             a, avals = build(fam, impl, A)
             b, bvals = build(fam, impl, B)
             a0, b0 = (_listing(a) if ak != 'gen' else None), (_listing(b) if bk != 'gen' else None)
+            conn = _evict([x for x, k in ((a, ak), (b, bk)) if k in BT]) if case.get('ghost') else None
+            if conn is not None:
+                classes['evicted_operands'] = classes.get('evicted_operands', 0) + 1
             sig = dict(feats, fn=name, how=how)
             desc = '%s %s on %s(%s) %s %r and %s %r' % (how, name, fam, impl, ak, A['keys'], bk, B['keys'])
             m = F.module(fam)
